@@ -249,10 +249,10 @@ Proof.
   rewrite Hfl, Har. exact Hfi.
 Qed.
 
-Lemma step_inv s l s' o : Inv s -> step s l = Some (s', o) -> Inv s'.
+Lemma step_inv s l s' o : Inv s -> ok_label l -> step s l = Some (s', o) -> Inv s'.
 Proof.
-  intros HI H. pose proof HI as [He Hall]. unfold step in H. rewrite He in H.
-  destruct l as [a d|susp|a|a|a|a|a t|a|a|a|a];
+  intros HI Hlbl H. pose proof HI as [He Hall]. unfold step in H. rewrite He in H.
+  destruct l as [a d|susp|a|a|a|a|a t|a|a|a r|a|a];
     try (destruct (cpu_free s); [|discriminate]); try (destruct (on_cpu s a); [|discriminate]).
   - (* Arrive *)
     destruct (Hall a) as [Hc Hf].
@@ -275,15 +275,18 @@ Proof.
   - eapply commit_local; eauto using l_gyield_ok.
   - eapply commit_local; eauto using l_gfinish_ok.
   - eapply commit_local; eauto using l_gfinish_ok.
+  - destruct r; [|exfalso; exact Hlbl]. eapply commit_local; eauto using l_gfinish_ok.
   - eapply commit_local; eauto using l_popwake_ok.
   - eapply commit_local; eauto using l_timeout_ok.
 Qed.
 
-Lemma steps_inv ls : forall s s', Inv s -> steps s ls = Some s' -> Inv s'.
+Lemma steps_inv ls : forall s s', Inv s -> Forall ok_label ls -> steps s ls = Some s' -> Inv s'.
 Proof.
-  induction ls as [|l ls IH]; intros s s' HI H; simpl in H.
+  induction ls as [|l ls IH]; intros s s' HI Hok H; simpl in H.
   - inversion H; subst; auto.
-  - destruct (step s l) as [[s1 o]|] eqn:E; [|discriminate]. eapply IH; [eapply step_inv; [exact HI|exact E]|exact H].
+  - inversion Hok as [|? ? Hl Hls]; subst.
+    destruct (step s l) as [[s1 o]|] eqn:E; [|discriminate].
+    eapply IH; [eapply step_inv; [exact HI|exact Hl|exact E]|exact Hls|exact H].
 Qed.
 
 Lemma trace_steps ls : forall s s' o, trace s ls = Some (s', o) -> steps s ls = Some s'.
@@ -304,18 +307,18 @@ Qed.
 
 (* ---------------------------------------------------------------- the invariants as theorems over label sequences *)
 Lemma state_none_implies_queue_empty_pf :
-  forall ls s a, steps state0 ls = Some s -> st (cl s a) = TNone -> queue (cl s a) = [].
+  forall ls s a, Forall ok_label ls -> steps state0 ls = Some s -> st (cl s a) = TNone -> queue (cl s a) = [].
 Proof.
-  intros ls s a H E. destruct (steps_inv _ _ _ Inv0 H) as [_ Hall]. destruct (Hall a) as [Hc _].
+  intros ls s a Hok H E. destruct (steps_inv _ _ _ Inv0 Hok H) as [_ Hall]. destruct (Hall a) as [Hc _].
   unfold cinv in Hc. rewrite E in Hc. tauto.
 Qed.
 
 Lemma at_most_one_active_pf :
-  forall ls s a, steps state0 ls = Some s ->
+  forall ls s a, Forall ok_label ls -> steps state0 ls = Some s ->
     err s = false /\ nactive (cl s a) <= 1 /\
     (nactive (cl s a) = 1 <-> st (cl s a) = TRunning) /\ (pc (cl s a) <> PIdle <-> st (cl s a) = TRunning).
 Proof.
-  intros ls s a H. destruct (steps_inv _ _ _ Inv0 H) as [He Hall]. destruct (Hall a) as [Hc _].
+  intros ls s a Hok H. destruct (steps_inv _ _ _ Inv0 Hok H) as [He Hall]. destruct (Hall a) as [Hc _].
   split; auto. unfold cinv in Hc. destruct (st (cl s a)).
   - destruct Hc as (H1 & H2 & H3). rewrite H3, H2. repeat split; try lia; try discriminate; try congruence.
   - destruct Hc as (H1 & H2 & H3). rewrite H3, H2. repeat split; try lia; try discriminate; try congruence.
@@ -323,10 +326,10 @@ Proof.
 Qed.
 
 Lemma eventually_handled_pf :
-  forall ls s a, steps state0 ls = Some s -> queue (cl s a) <> [] ->
+  forall ls s a, Forall ok_label ls -> steps state0 ls = Some s -> queue (cl s a) <> [] ->
     st (cl s a) = TPending \/ st (cl s a) = TRunning.
 Proof.
-  intros ls s a H Hq. destruct (st (cl s a)) eqn:E; auto.
+  intros ls s a Hok H Hq. destruct (st (cl s a)) eqn:E; auto.
   exfalso. apply Hq. eapply state_none_implies_queue_empty_pf; eauto.
 Qed.
 
@@ -453,11 +456,11 @@ Proof.
     + rewrite upd_neq by auto. rewrite Hoth by auto. rewrite app_nil_r. auto.
 Qed.
 
-Lemma step_ghost s l s' o : Inv s -> step s l = Some (s', o) -> ghost_step s s' l o.
+Lemma step_ghost s l s' o : Inv s -> ok_label l -> step s l = Some (s', o) -> ghost_step s s' l o.
 Proof.
-  intros HI H. pose proof (step_inv _ _ _ _ HI H) as HI'. pose proof HI as [He Hall].
+  intros HI Hlbl H. pose proof (step_inv _ _ _ _ HI Hlbl H) as HI'. pose proof HI as [He Hall].
   unfold step in H. rewrite He in H.
-  destruct l as [a d|susp|a|a|a|a|a t|a|a|a|a];
+  destruct l as [a d|susp|a|a|a|a|a t|a|a|a r|a|a];
     try (destruct (cpu_free s); [|discriminate]); try (destruct (on_cpu s a); [|discriminate]).
   - (* Arrive *)
     unfold commit in H. inversion H; subst; clear H. intros b. simpl.
@@ -473,20 +476,23 @@ Proof.
   - eapply (commit_ghost s _ a [] (l_gyield a t)); [exact HI'|apply l_gyield_obs|intros; reflexivity|intros; reflexivity|exact H].
   - eapply (commit_ghost s _ a [] l_gfinish); [exact HI'|apply l_gfinish_obs|intros; reflexivity|intros; reflexivity|exact H].
   - eapply (commit_ghost s _ a [] l_gfinish); [exact HI'|apply l_gfinish_obs|intros; reflexivity|intros; reflexivity|exact H].
+  - destruct r; [|exfalso; exact Hlbl].
+    eapply (commit_ghost s _ a [] l_gfinish); [exact HI'|apply l_gfinish_obs|intros; reflexivity|intros; reflexivity|exact H].
   - eapply (commit_ghost s _ a [] (l_popwake a)); [exact HI'|apply l_popwake_obs|intros; reflexivity|intros; reflexivity|exact H].
   - eapply (commit_ghost s _ a [] (l_timeout a)); [exact HI'|apply l_timeout_obs|intros; reflexivity|intros; reflexivity|exact H].
 Qed.
 
-Lemma trace_ghost ls : forall s s' o, Inv s -> trace s ls = Some (s', o) ->
+Lemma trace_ghost ls : forall s s' o, Inv s -> Forall ok_label ls -> trace s ls = Some (s', o) ->
   forall b, delivered (cl s' b) = delivered (cl s b) ++ received b o /\
             arrived (cl s' b) = arrived (cl s b) ++ arrivals b ls.
 Proof.
-  induction ls as [|l ls IH]; intros s s' o HI H b; simpl in H.
+  induction ls as [|l ls IH]; intros s s' o HI Hok H b; simpl in H.
   - inversion H; subst. simpl. rewrite !app_nil_r. auto.
-  - destruct (step s l) as [[s1 o1]|] eqn:E; [|discriminate].
+  - inversion Hok as [|? ? Hl Hls]; subst.
+    destruct (step s l) as [[s1 o1]|] eqn:E; [|discriminate].
     destruct (trace s1 ls) as [[s2 o2]|] eqn:E2; [|discriminate]. inversion H; subst; clear H.
-    pose proof (step_inv _ _ _ _ HI E) as HI1.
-    destruct (step_ghost _ _ _ _ HI E b) as [Hd Ha]. destruct (IH _ _ _ HI1 E2 b) as [Hd2 Ha2].
+    pose proof (step_inv _ _ _ _ HI Hl E) as HI1.
+    destruct (step_ghost _ _ _ _ HI Hl E b) as [Hd Ha]. destruct (IH _ _ _ HI1 Hls E2 b) as [Hd2 Ha2].
     rewrite Hd2, Hd, Ha2, Ha, received_app, <- !app_assoc.
     change (l :: ls) with ([l] ++ ls). rewrite arrivals_app. auto.
 Qed.
@@ -495,12 +501,12 @@ Qed.
    discards removed; nothing is lost, duplicated or reordered: everything not yet consumed is still held / queued /
    with a handler task that has not run, in arrival order *)
 Lemma fifo_exactly_once_pf :
-  forall ls s o a, trace state0 ls = Some (s, o) ->
+  forall ls s o a, Forall ok_label ls -> trace state0 ls = Some (s, o) ->
     received a o = map fst (filter snd (hist (cl s a))) /\
     map fst (hist (cl s a)) ++ held (cl s a) ++ queue (cl s a) ++ proj a (spawned s) = arrivals a ls.
 Proof.
-  intros ls s o a H. destruct (trace_ghost _ _ _ _ Inv0 H a) as [Hd Ha]. simpl in Hd, Ha.
-  pose proof (steps_inv _ _ _ Inv0 (trace_steps _ _ _ _ H)) as [_ Hall]. destruct (Hall a) as [_ Hf].
+  intros ls s o a Hok H. destruct (trace_ghost _ _ _ _ Inv0 Hok H a) as [Hd Ha]. simpl in Hd, Ha.
+  pose proof (steps_inv _ _ _ Inv0 Hok (trace_steps _ _ _ _ H)) as [_ Hall]. destruct (Hall a) as [_ Hf].
   unfold fifo_at, flat in Hf. split.
   - symmetry. exact Hd.
   - rewrite <- Ha, <- Hf, <- !app_assoc. reflexivity.
@@ -515,7 +521,7 @@ Proof.
   assert (Hc : forall sp pre r, commit s sp a pre r = Some (s', o) -> cl s' b = cl s b /\ spawned s' = sp).
   { intros sp pre r Hcm. unfold commit in Hcm. destruct r; inversion Hcm; subst; simpl; auto.
     rewrite upd_neq by auto. auto. }
-  destruct l as [a0 d|susp|a0|a0|a0|a0|a0 t|a0|a0|a0|a0]; simpl in Ha;
+  destruct l as [a0 d|susp|a0|a0|a0|a0|a0 t|a0|a0|a0 r|a0|a0]; simpl in Ha;
     try (destruct (cpu_free s); [|discriminate]); try (destruct (on_cpu s a0); [|discriminate]);
     try (inversion Ha; subst a0; destruct (Hc _ _ _ H) as [H1 H2]; split; [exact H1|rewrite H2; reflexivity]).
   - inversion Ha; subst a0. destruct (Hc _ _ _ H) as [H1 H2]. split; [exact H1|]. rewrite H2. apply proj_snoc_neq; auto.
@@ -643,10 +649,10 @@ Proof. unfold cpu_free. destruct (cur s); [discriminate|reflexivity]. Qed.
 Lemma on_cpu_some s a : on_cpu s a = true -> cur s = Some a.
 Proof. unfold on_cpu. destruct (cur s) as [b|]; [|discriminate]. intros H. apply Nat.eqb_eq in H. congruence. Qed.
 
-Lemma step_cpu s l s' o : Inv s -> cpu_inv s -> step s l = Some (s', o) -> cpu_inv s'.
+Lemma step_cpu s l s' o : Inv s -> cpu_inv s -> ok_label l -> step s l = Some (s', o) -> cpu_inv s'.
 Proof.
-  intros HI HC H. pose proof HI as [He Hall]. pose proof HC as [C1 C2]. unfold step in H. rewrite He in H.
-  destruct l as [a d|susp|a|a|a|a|a t|a|a|a|a];
+  intros HI HC Hlbl H. pose proof HI as [He Hall]. pose proof HC as [C1 C2]. unfold step in H. rewrite He in H.
+  destruct l as [a d|susp|a|a|a|a|a t|a|a|a r|a|a];
     try (destruct (cpu_free s) eqn:Ef; [apply cpu_free_none in Ef|discriminate]);
     try (destruct (on_cpu s a) eqn:Eo; [apply on_cpu_some in Eo|discriminate]).
   - refine (commit_cpu s _ a _ _ s' o HC _ _ _ H); [auto|discriminate|].
@@ -676,6 +682,10 @@ Proof.
   - destruct (Hall a) as [Hc _]. destruct (l_gfinish_ok _ Hc) as [Hnc _]. destruct (C1 _ Eo) as [G1 G2].
     refine (commit_cpu s _ a _ _ s' o HC _ Hnc _ H); [auto|].
     intros c' o' cpu E. eapply l_gfinish_on; [exact Hc|exact G1|exact G2|exact E].
+  - destruct r; [|exfalso; exact Hlbl].
+    destruct (Hall a) as [Hc _]. destruct (l_gfinish_ok _ Hc) as [Hnc _]. destruct (C1 _ Eo) as [G1 G2].
+    refine (commit_cpu s _ a _ _ s' o HC _ Hnc _ H); [auto|].
+    intros c' o' cpu E. eapply l_gfinish_on; [exact Hc|exact G1|exact G2|exact E].
   - destruct (Hall a) as [Hc _]. destruct (l_popwake_ok a _ Hc) as [Hnc _].
     refine (commit_cpu s _ a _ _ s' o HC _ Hnc _ H); [auto|].
     intros c' o' cpu E. eapply l_popwake_off; [exact Hc| |exact E]. apply C2. congruence.
@@ -689,14 +699,16 @@ Definition Good (s : state) : Prop := Inv s /\ cpu_inv s.
 Lemma Good0 : Good state0.
 Proof. split; [exact Inv0|exact cpu_inv0]. Qed.
 
-Lemma step_good s l s' o : Good s -> step s l = Some (s', o) -> Good s'.
-Proof. intros [HI HC] H. split; [eapply step_inv; eauto|eapply step_cpu; eauto]. Qed.
+Lemma step_good s l s' o : Good s -> ok_label l -> step s l = Some (s', o) -> Good s'.
+Proof. intros [HI HC] Hok H. split; [eapply step_inv; eauto|eapply step_cpu; eauto]. Qed.
 
-Lemma steps_good ls : forall s s', Good s -> steps s ls = Some s' -> Good s'.
+Lemma steps_good ls : forall s s', Good s -> Forall ok_label ls -> steps s ls = Some s' -> Good s'.
 Proof.
-  induction ls as [|l ls IH]; intros s s' HG H; simpl in H.
+  induction ls as [|l ls IH]; intros s s' HG Hok H; simpl in H.
   - inversion H; subst; auto.
-  - destruct (step s l) as [[s1 o]|] eqn:E; [|discriminate]. eapply IH; [eapply step_good; [exact HG|exact E]|exact H].
+  - inversion Hok as [|? ? Hl Hls]; subst.
+    destruct (step s l) as [[s1 o]|] eqn:E; [|discriminate].
+    eapply IH; [eapply step_good; [exact HG|exact Hl|exact E]|exact Hls|exact H].
 Qed.
 
 (* ---------------------------------------------------------------- progress: pending work of an address can always be
@@ -890,6 +902,9 @@ Qed.
 Lemma polite_no_arrival a l b : polite a l -> arrivals b [l] = [].
 Proof. destruct l; simpl; try tauto; reflexivity. Qed.
 
+Lemma polite_ok a l : polite a l -> ok_label l.
+Proof. destruct l; simpl; tauto. Qed.
+
 Lemma progress_pf a : forall n s,
   mu a s <= n -> Good s -> pendingP a s ->
   exists ls s', steps s ls = Some s' /\ Forall (polite a) ls /\ consumed a s' = S (consumed a s).
@@ -900,20 +915,20 @@ Proof.
     + lia.
   - destruct (progress_step a s HG HP) as (l & s' & o & Hs & Hpl & [Hc|[Hc Hm]]).
     + exists [l], s'. simpl. rewrite Hs. auto.
-    + pose proof (step_good _ _ _ _ HG Hs) as HG'.
+    + pose proof (step_good _ _ _ _ HG (polite_ok _ _ Hpl) Hs) as HG'.
       assert (HP' : pendingP a s').
       { unfold pendingP. rewrite Hc. destruct HG as [HI _].
-        destruct (step_ghost _ _ _ _ HI Hs a) as [_ Ha]. rewrite Ha, (polite_no_arrival a l a Hpl), app_nil_r. exact HP. }
+        destruct (step_ghost _ _ _ _ HI (polite_ok _ _ Hpl) Hs a) as [_ Ha]. rewrite Ha, (polite_no_arrival a l a Hpl), app_nil_r. exact HP. }
       destruct (IH s' ltac:(lia) HG' HP') as (ls & s2 & Hss & Hf & Hc2).
       exists (l :: ls), s2. simpl. rewrite Hs. split; [exact Hss|]. split; [constructor; assumption|]. lia.
 Qed.
 
 Lemma not_starved_pf :
-  forall ls s a, steps state0 ls = Some s ->
+  forall ls s a, Forall ok_label ls -> steps state0 ls = Some s ->
     held (cl s a) ++ queue (cl s a) ++ proj a (spawned s) <> [] ->
     exists ls' s', steps s ls' = Some s' /\ Forall (polite a) ls' /\
                    length (hist (cl s' a)) = S (length (hist (cl s a))).
 Proof.
-  intros ls s a H Hp. pose proof (steps_good _ _ _ Good0 H) as HG.
+  intros ls s a Hok H Hp. pose proof (steps_good _ _ _ Good0 Hok H) as HG.
   apply (progress_pf a (mu a s) s (le_n _) HG). apply pending_iff; [exact (proj1 HG)|exact Hp].
 Qed.
